@@ -170,6 +170,7 @@ PROPS = {
     },
     "C08": {
         "level": "model_checking",
+        "uses_vsched": True,
         "technique": "explicit-state search over write/cut/resume histories against the real streamable HTTP handler (served in-process, streaming bodies) with a recording event store as ground truth",
         "claim": "for a request stream (protocol 2025-06-18 and 2025-11-25 with priming event) and the standalone stream: all histories (exhaustive to the shallow depth, state-deduplicated beyond) over {server writes the next of 3 notifications and the final response, client cuts the attached exchange, client resumes with the id of any event issued so far (5 positions), a second concurrent resume}: every exchange delivers, from its resume point on, exactly the messages appended to the stream in append order with ids stream_k increasing by one, ids denote the same payload on every delivery, an attached exchange is caught up at quiescence, a concurrent resume is refused with 409, and after any history the whole stream (incl. the final response) is obtainable by one more resume; (E1) a server write racing a resuming GET on the detached stream under the controlled scheduler: the resumed exchange carries exactly the messages appended after its resume point, ids consecutive, payloads in append order; likewise when the handler closes its own SSE stream (CloseSSEStream) while the client, still holding the POST, already resumes (the resume is refused with 409 or served, and a served resume receives everything written later)",
         "note": "one request stream with 4 messages; purge/eviction of the event store is covered by C20, not here; concurrent Write vs. serveGET interleavings below the request level are not explored (requests are run to quiescence)",
@@ -178,7 +179,7 @@ PROPS = {
             {"pkg": "mcp", "mode": "instr", "test": "TestVerifC08Race", "two_phase": True, "scenario_prefix": "race/", "time_s": {"thorough": 1800}},
             {"pkg": "mcp", "mode": "race", "test": "TestVerifC08Race", "scenario_prefix": "free-race/", "free_runs": {"quick": 60, "thorough": 600}},
         ],
-        "assumptions": ["synctest.Wait() quiescence = all bytes the server can write have been written and read"],
+        "assumptions": E1_ASSUME + ["synctest.Wait() quiescence = all bytes the server can write have been written and read"],
     },
     "C09": {
         "level": "fault_enumeration",
